@@ -432,7 +432,9 @@ theorem rows_length_of_count (src : Src) (n : Nat) (hc : src.count? = some n) (e
     cases lo <;> cases hi <;> simp [Src.count?] at hc
     subst hc
     simp [Src.rows, CE.eval] at h
-    subst h; simp
+    split at h
+    · simp at h
+    · simp at h; subst h; simp
   | arr xs => simp [Src.count?] at hc; simp [Src.rows] at h; subst h hc; simp
   | enumArr xs =>
     simp [Src.count?] at hc; simp [Src.rows] at h; subst h hc
